@@ -197,6 +197,19 @@ def run_rules(ctx, res):
     comment_used = None
     for st in body:
         e = st.get("expr")
+        if st["k"] == "ExprStmt" and e["k"] == "Match" and e["expr"]["k"] == "MethodCall" and e["expr"]["method"] == "strip_prefix" and ident_of(e["expr"]["recv"]) == line_var and len(e["arms"]) == 2:
+            # match line.strip_prefix(P) { Some(h) => return Some(h), None => continue }
+            prefix_used = const_val(e["expr"]["args"][0])
+            some = [a for a in e["arms"] if a["pat"]["k"] == "PTupleStruct" and a["pat"]["path"]["segs"] == ["Some"] and a.get("guard") is None]
+            none = [a for a in e["arms"] if unparse(a["pat"]).strip() in ("None", "_") and a.get("guard") is None]
+            if len(some) == 1 and len(none) == 1:
+                b = some[0]["pat"]["elems"][0].get("name")
+                rets = nodes(some[0]["body"], "Return")
+                if not rets and some[0]["body"]["k"] == "Return":
+                    rets = [some[0]["body"]]
+                nb = unparse(none[0]["body"]).replace(" ", "")
+                ok2 = len(rets) == 1 and unparse(rets[0]["expr"]).replace(" ", "") == "Some(%s)" % b and (nb in ("continue", "()", "{}", "{continue}", "{continue;}") or none[0]["body"]["k"] == "Continue") and not nodes(none[0]["body"], "Return") and none[0]["body"]["k"] != "Return"
+            continue
         if st["k"] != "ExprStmt" or e["k"] != "If":
             res.unanalysable(RDR, "reader|loop-statement", rw, "unexpected statement in the reader's loop: %s" % unparse(e)[:80])
             continue
